@@ -560,6 +560,16 @@ func (v *verifier) processSignature(ctx context.Context, sigBlob []byte, envelop
 			return processPluginResponse(capabilitiesToVerify, response, outcome)
 		}
 	}
+
+	if installedPlugin == nil {
+		// the signature names no verification plugin, so nothing can process
+		// its extended attributes: a critical one must not be accepted
+		for _, attr := range getNonPluginExtendedCriticalAttributes(&outcome.EnvelopeContent.SignerInfo) {
+			if attr.Critical {
+				return notation.ErrorVerificationInconclusive{Msg: fmt.Sprintf("extended critical attribute %q was not processed (all extended critical attributes must be processed by a verification plugin)", attr.Key)}
+			}
+		}
+	}
 	return nil
 }
 
